@@ -5,6 +5,7 @@ import Driver.RangeLock
 import Driver.Sync
 import Driver.Chan
 import Driver.ObjCache
+import Driver.Rpc
 /-! `driver <model>`: one op per stdin line, one canonical result line per op on stdout. -/
 
 structure Model where
@@ -20,6 +21,7 @@ def dispatch (model : String) : Option Model :=
   | "path" => some (pureModel Driver.Path.step)
   | "iov" => some ⟨Driver.Iov.St, {}, Driver.Iov.step⟩
   | "objcache" => some ⟨Driver.ObjCache.D, {}, Driver.ObjCache.step⟩
+  | "rpc" => some ⟨Driver.Rpc.D, {}, Driver.Rpc.step⟩
   | "chan" => some ⟨Driver.Chan.D, {}, Driver.Chan.step⟩
   | "sync" => some ⟨Driver.Sync.D, {}, Driver.Sync.step⟩
   | "rangelock" => some ⟨Photon.RangeLock.State, {}, Driver.RangeLock.step⟩
